@@ -361,6 +361,9 @@ void parse_itmz_token_chain(mmd_engine * e, token * chain) {
 	// Clean up token chain
 	token_tree_free(chain);
 
+	// The parser pointed e->root into the chain that was just freed
+	e->root = NULL;
+
 	ITMZFree(pParser, free);
 }
 
